@@ -265,3 +265,10 @@ def values_capped(term, ns, w, r, res, cap=400):
         res.caps.append(f"values-per-term>{cap}:{term.src}")
         vals = vals[:cap]
     return vals
+
+
+def shallow_kind(t):
+    """constructor kind + the kinds of its direct members only (keeps one root cause to a handful of cells)"""
+    if not t.args or t.kind in ("leaf", "literal", "struct"):
+        return t.sig()
+    return f"{t.kind}[{','.join(a.sig() if not a.args or a.kind in ('leaf', 'literal', 'struct') else a.kind for a in t.args)}]"
